@@ -1315,12 +1315,22 @@ func verifyGitObjectAndAttestationsUsingVerifiers(ctx context.Context, verifiers
 		verifiedUsing                       string
 		acceptedPrincipalIDs                *set.Set[string]
 		rslEntrySignatureNeededForThreshold bool
+		exhaustivelyVerifiedPrincipalIDs    *set.Set[string]
 	)
 	for _, verifier := range verifiers {
 		trustedPrincipalIDs := verifier.TrustedPrincipalIDs()
 
 		usedPrincipalIDs, err := verifier.Verify(ctx, gitID, authorizationAttestation)
 		if err == nil {
+			if verifier.verifyExhaustively && len(verifiers) > 1 {
+				// The exhaustive verifier identifies every principal who
+				// signed off, which the global rules need. It doesn't
+				// stand in for the rules protecting the namespace: one of
+				// the other verifiers must still be met.
+				exhaustivelyVerifiedPrincipalIDs = usedPrincipalIDs
+				continue
+			}
+
 			// We meet requirements just from the authorization attestation's sigs
 			verifiedUsing = verifier.Name()
 			acceptedPrincipalIDs = usedPrincipalIDs
@@ -1394,6 +1404,9 @@ func verifyGitObjectAndAttestationsUsingVerifiers(ctx context.Context, verifiers
 	}
 
 	if verifiedUsing != "" {
+		if exhaustivelyVerifiedPrincipalIDs != nil {
+			acceptedPrincipalIDs.Extend(exhaustivelyVerifiedPrincipalIDs)
+		}
 		return verifiedUsing, acceptedPrincipalIDs, rslEntrySignatureNeededForThreshold, nil
 	}
 
